@@ -149,6 +149,10 @@ func (p *scriptPool) NewStream(ctx context.Context, receiver types.StreamReceive
 	h.ups = append(h.ups, u)
 	h.mu.Unlock()
 	h.add(Rec{Kind: "up.new", K: k, Aux: res + "@" + p.host.AddressString()})
+	if k == 0 && h.spec.PoolDelayMs > 0 {
+		time.Sleep(time.Duration(h.spec.PoolDelayMs) * time.Millisecond)
+		h.add(Rec{Kind: "pool.wake", K: k})
+	}
 	switch res {
 	case "overflow":
 		return p.host, nil, types.Overflow
